@@ -125,8 +125,20 @@ def _execute(line: str):
         extra["left_after"] = wire(x)
     elif op in ("shl", "shr"):
         n = int(b)
-        out = guarded(lambda: (x << n) if op == "shl" else (x >> n), wire)
+        res = []
+        def sh():
+            r = (x << n) if op == "shl" else (x >> n)
+            res.append(r)
+            return r
+        out = guarded(sh, wire)
         extra["left_after"] = wire(x)
+        # the result is a new object: changing it in place must not change what the same shift gives next time
+        if res and isinstance(res[0], BitArray):
+            try:
+                res[0].invert(); res[0].append("0b1")
+            except Exception:                               # noqa: BLE001
+                pass
+        extra["again"] = guarded(lambda: (mk(cls, a) << n) if op == "shl" else (mk(cls, a) >> n), wire)
     elif op in ("ishl", "ishr"):
         n = int(b)
         def th():
